@@ -111,7 +111,7 @@ simulation.
 """
 
 
-@dataclass
+@dataclass(eq=False)
 class SimGroup:
     parent: SimGroup | None
 
